@@ -177,6 +177,54 @@ Fixpoint run_phases (u : nat) (n : Z) (from : list Z) (phs : list phase) (acc : 
     end
   end.
 
+(* ---- the memory reader across operations on one tag object.
+   Its state is the pair (data_from_tag, data_in_cache); a write command that fails leaves data_from_tag as it was
+   (it is updated only after the command succeeded), whether the tag never received the command ([Lost]) or
+   executed it and only the response was lost ([Unanswered]). ---- *)
+Inductive fate := Lost | Unanswered.
+
+(* the commands of one synchronize; [k] = Some j: the j-th command from now on fails.  Result: tag memory,
+   data_from_tag, commands executed by the tag, and None (the synchronize raised TagCommandError) or the
+   remaining fault counter *)
+Fixpoint exec_sync (n : Z) (ws : list write) (m from : list Z) (k : option nat) (f : fate)
+  : list Z * list Z * list write * option (option nat) :=
+  match ws with
+  | [] => (m, from, [], Some k)
+  | w :: r =>
+    if negb ((0 <=? fst w) && (fst w + len (snd w) <=? n)) then (m, from, [], None)
+    else
+      match k with
+      | Some (S O) =>
+        match f with
+        | Lost => (m, from, [], None)
+        | Unanswered => (apply1 m w, from, [w], None)
+        end
+      | _ =>
+        let k' := match k with Some (S j) => Some j | _ => None end in
+        let '(m', from', ex, r') := exec_sync n r (apply1 m w) (apply1 from w) k' f in
+        (m', from', w :: ex, r')
+      end
+  end.
+
+(* one attempt of a write operation (a list of phases) starting from the reader state (from, cache) *)
+Fixpoint run_attempt (u : nat) (n : Z) (m from cache : list Z) (phs : list phase) (k : option nat) (f : fate)
+  : res unit * (list Z * list Z * list Z) * list write :=
+  match phs with
+  | [] => (Ok tt, (m, from, cache), [])
+  | ph :: rest =>
+    match ph cache with
+    | Ok c =>
+      match exec_sync n (sync_cmds u from c) m from k f with
+      | (m', from', ex, Some k') =>
+        let '(r, st, ex2) := run_attempt u n m' from' c rest k' f in (r, st, ex ++ ex2)
+      | (m', from', ex, None) => (tag_err, (m', from', c), ex)
+      end
+    | Err e => (Err e, (m, from, cache), [])
+    | Crash x => (Crash x, (m, from, cache), [])
+    | Hang => (Hang, (m, from, cache), [])
+    end
+  end.
+
 (* what the TLV walk does after looking at a TLV: go on (with this skip set), NDEF TLV found, stop *)
 Inductive tlv_action := Next (skip : ranges) | Found | Stop.
 
